@@ -139,6 +139,14 @@ func UpdatePartialFromConfig(cfg *Config, updates map[string]any) (UpdateStatus,
 		return UpdateStatusFailed, fmt.Errorf("%w: %v", ErrUpdateFailed, err)
 	}
 
+	// The file leaves out command-line overwrites, so it can differ from what was just verified:
+	// it has to be a configuration the next start can load on its own.
+	if err := cfg.verifySaved(); err != nil {
+		slog.Error("Updated config would save a file that fails verification", "error", err)
+		rollback()
+		return UpdateStatusFailed, fmt.Errorf("%w: %v", ErrUpdateFailed, err)
+	}
+
 	if err := cfg.persist(); err != nil {
 		slog.Error("Failed to persist updated config", "error", err)
 		rollback()
